@@ -61,7 +61,7 @@ def observe(cfg, cdg=None):
         if cdg is None:
             cdg = cf.ControlDependenceGraph.compute(cfg)
     except Exception as e:  # noqa: BLE001
-        case["error"] = f"{type(e).__name__}"
+        case["error"] = f"cdg:{type(e).__name__}"
         case["cdg"], case["obs"] = [], []
         return case
     case["cdg"] = graph_triples(cdg.graph)
@@ -284,12 +284,18 @@ def queries(cdg, n):
 
 def oracle(case):
     """List of (signature, message).  Asserts what the property states."""
-    if case.get("error"):
-        return [("exception:" + case["error"], f"building the CFG/CDG raised {case['error']}")]
+    err = case.get("error")
+    if err and err.startswith("cfg:"):
+        return [("exception:" + err, f"CFG.from_bytecode raised {err[4:]} for a valid code object")]
     res = []
     w = wellformed(case["nodes"], case["edges"])
     if w:
-        return [("cfg:not-wellformed:" + w, f"control-flow graph violates: {w}")]
+        res.append(("cfg:not-wellformed:" + w, f"control-flow graph violates: {w}"))
+    if err:
+        what = "ControlDependenceGraph.compute" if err.startswith("cdg:") else "a CDG query"
+        res.append(("exception:" + err, f"{what} raised {err.split(':', 1)[1]} for a valid code object"))
+    if w or err:
+        return res
     exp = ferrante(case["nodes"], case["edges"])
     got = set(case["cdg"])
     pairs = {(a, b) for a, _, b in got}
